@@ -59,6 +59,7 @@ static struct isal_zstream *s;
 static int calls;
 static uint32_t flush_point; /* full_len when the flushing call returned with avail_in==0 && avail_out>0 */
 static int flush_seen, flush_state;
+static uint32_t head_base; /* input offset of the last history reset, for the hash-head invariant */
 static uint32_t hist_base; /* CHECK05: input offset where the current match history starts */
 
 static void
@@ -117,6 +118,31 @@ one_call(void)
         }
         if (s->internal_state.has_hist == IGZIP_NO_HIST)
                 hist_base = s->total_in - (s->internal_state.b_bytes_valid - s->internal_state.b_bytes_processed);
+#endif
+#if CHECK05 || CHECK14
+        /* (lead) hash-head invariant, C14 "no later match refers to data before a completed full flush" without needing
+         * an input long enough to contain a real match.  head_base is the input position at which the match history was
+         * last dropped (has_hist == IGZIP_NO_HIST when a call returned: stream start, completed FULL_FLUSH).  The reset of
+         * the hash table itself is lazy (top of the next isal_deflate call), so stale heads are legitimate while nothing
+         * has been compressed since; but as soon as the stream has history again, or input beyond head_base has been
+         * compressed, no head of the level-0 table may denote a position before head_base (heads hold positions modulo
+         * 2^16; reset_match_history() points heads 0..hash_mask at the reset position itself). */
+        {
+                uint32_t unproc2 = s->internal_state.b_bytes_valid - s->internal_state.b_bytes_processed;
+                uint32_t P2 = s->total_in - unproc2;
+                if ((s->internal_state.has_hist == IGZIP_HIST && s->internal_state.state != ZSTATE_END &&
+                     s->internal_state.state != ZSTATE_TMP_END) ||
+                    (unproc2 <= s->total_in && P2 > head_base)) {
+                        /* 16 sampled heads (all 8192 per call is too slow): a skipped reset leaves EVERY head stale */
+                        for (uint32_t k = 0; k < 16; k++) {
+                                uint32_t h = (k * 1171u) & s->internal_state.hash_mask & (IGZIP_LVL0_HASH_SIZE - 1);
+                                VASSERT(((P2 - s->internal_state.head[h]) & 0xffff) <= P2 - head_base,
+                                        "no hash head denotes a position before the last history reset (full flush point)");
+                        }
+                }
+                if (s->internal_state.has_hist == IGZIP_NO_HIST)
+                        head_base = P2;
+        }
 #endif
 #if defined(REPLAY) && defined(DFL_DEBUG)
         printf("call %d: flush=%d eos=%d in %u->%u out %u->%u state %d->%d has_hist=%d valid=%u processed=%u total_in=%u\n", calls, s->flush,
